@@ -84,7 +84,7 @@ def _path(clf, X, y=None, alpha_multiplier=1.05, min_features=2, keep_threshold=
 
     generator = check_random_state(clf.random_state)
     if clf.batch_size is not None:
-        batch_size = clf.batch_size
+        batch_size = int(clf.batch_size)  # plain Python integer (narrow numpy integers overflow in position arithmetic)
     else:
         batch_size = len(X)
 
